@@ -125,10 +125,11 @@ class StaticFileHandler(RequestHandler):
             # Try each index filename in order (per Gemini best practices)
             index_found = False
             for index_name in self.default_indices:
-                # The index file may itself be a symlink: resolve it and apply
-                # the same containment check as for directly requested files
+                # The index file may itself be a symlink: resolve it (strictly,
+                # like the requested path above) and apply the same containment
+                # check as for directly requested files
                 try:
-                    index_path = (file_path / index_name).resolve()
+                    index_path = (file_path / index_name).resolve(strict=True)
                 except (ValueError, OSError, RuntimeError):
                     continue
                 if not self._is_safe_path(index_path):
